@@ -49,7 +49,8 @@ LegalToken(c, t) ==
 \* UNAUTHENTICATE invalidate it (RFC 9051 6.1.1), and until the server has announced its capabilities again nothing is
 \* advertised - only what every server accepts may be written.
 NothingAdvertised == [litminus |-> FALSE, litplus |-> FALSE, rev2 |-> FALSE, utf8adv |-> FALSE, utf8 |-> FALSE, saslir |-> FALSE]
-Effective(c, stale) == IF stale THEN NothingAdvertised ELSE c
+\* UNAUTHENTICATE undoes every ENABLE (RFC 8437 section 2): what was enabled before it is not enabled after it.
+Effective(c, stale, unauth) == IF stale THEN NothingAdvertised ELSE IF unauth THEN [c EXCEPT !.utf8 = FALSE] ELSE c
 
 \* ---- the handshake -------------------------------------------------------------
 Init == /\ cfg \in Configs /\ phase = "idle" /\ wrote = 0 /\ status = "none" /\ alive = TRUE
